@@ -1,14 +1,14 @@
 /* Fake clock: the statically linked libjwt calls this time().  With vh_tick != 0 the clock advances on every reading
- * (one operation must take one reading: values derived from several readings disagree). */
+ * (one operation must take one reading: values derived from several readings disagree).  Nothing is written while
+ * vh_tick == 0, so concurrent readers (C18) do not race on the harness' own state. */
 #include <time.h>
 time_t vh_now = 1700000000;
 time_t vh_tick = 0;
-unsigned long vh_clock_reads = 0;
 time_t time(time_t *t)
 {
 	time_t v = vh_now;
-	vh_now += vh_tick;
-	vh_clock_reads++;
+	if (vh_tick)
+		vh_now = v + vh_tick;
 	if (t)
 		*t = v;
 	return v;
